@@ -140,6 +140,27 @@ class OneHotPlugin(PrimitiveLeafPlugin):
             np.asarray([0, 1], dtype=out_dtype),
         )
 
+        # jax.nn.one_hot yields an all-zero row for every index outside
+        # [0, num_classes); ONNX OneHot wraps indices in [-depth, -1].  Send negative
+        # indices to `depth`, which OneHot treats as out of range.
+        zero_i64 = ctx.bind_const_for_var(object(), np.asarray(0, dtype=np.int64))
+        is_negative = ctx.builder.Less(
+            indices_input,
+            zero_i64,
+            _outputs=[ctx.fresh_name("one_hot_idx_negative")],
+        )
+        if getattr(x_val, "shape", None) is not None:
+            is_negative.shape = x_val.shape
+        non_wrapping = ctx.builder.Where(
+            is_negative,
+            depth_const,
+            indices_input,
+            _outputs=[ctx.fresh_name("one_hot_indices_nowrap")],
+        )
+        if getattr(x_val, "shape", None) is not None:
+            non_wrapping.shape = x_val.shape
+        indices_input = non_wrapping
+
         result = ctx.builder.OneHot(
             indices_input,
             depth_const,
